@@ -605,7 +605,9 @@ func (ex *Exec) unop(g *G, fr *Frame, x *ssa.UnOp) {
 		fr.ip++
 	case token.SUB:
 		t := termOf(v)
-		if t.Sort.K == smt.KFP {
+		if isIntF(t) {
+			ex.set(fr, x, ex.B.Neg(t))
+		} else if t.Sort.K == smt.KFP {
 			ex.set(fr, x, ex.B.FUn(smt.OFNeg, t))
 		} else {
 			ex.set(fr, x, ex.B.Neg(t))
@@ -645,6 +647,24 @@ func (ex *Exec) binop(g *G, op token.Token, xt types.Type, xv, yv Value, yt type
 	y, oky := yv.(*smt.Term)
 	if !okx || !oky {
 		ex.unsupported(fmt.Sprintf("binop %s on %T,%T", op, xv, yv))
+	}
+	if isIntF(x) || isIntF(y) {
+		x, y = ex.intFPair(x, y)
+		switch op {
+		case token.ADD:
+			return B.Add(x, y)
+		case token.SUB:
+			return B.Sub(x, y)
+		case token.LSS:
+			return B.Slt(x, y)
+		case token.LEQ:
+			return B.Sle(x, y)
+		case token.GTR:
+			return B.Slt(y, x)
+		case token.GEQ:
+			return B.Sle(y, x)
+		}
+		ex.unsupported("float op " + op.String() + " on an intfloat value (only + - and comparisons are exact)")
 	}
 	if isOrd(x) || isOrd(y) {
 		x, y = ex.ordPair(x, y)
@@ -828,6 +848,10 @@ func (ex *Exec) valuesEqual(a, b Value) *smt.Term {
 		if !ok {
 			ex.unsupported(fmt.Sprintf("== between term and %T", b))
 		}
+		if isIntF(x) || isIntF(y) {
+			x, y = ex.intFPair(x, y)
+			return B.Eq(x, y)
+		}
 		if x.Sort.K == smt.KFP {
 			return B.FCmp(smt.OFEq, x, y)
 		}
@@ -926,6 +950,17 @@ func (ex *Exec) convert(v Value, from, to types.Type) Value {
 	fu, tu := from.Underlying(), to.Underlying()
 	if t, ok := v.(*smt.Term); ok {
 		ts, okT := sortOf(to)
+		if okT && isIntF(t) {
+			switch ts.K {
+			case smt.KFP:
+				return t // float32 <-> float64 of an exactly representable integer
+			case smt.KBV:
+				if ts.W >= smt.IntFW {
+					return B.Sext(t, ts.W)
+				}
+				return B.Extract(t, ts.W-1, 0)
+			}
+		}
 		if okT {
 			switch {
 			case t.Sort.K == smt.KBV && ts.K == smt.KBV:
